@@ -417,7 +417,7 @@ def run(ctx):
             return
         try:
             mc["r"] = vlib.tlc("SurfacesMC", "SurfacesMC" if q else _mc_cfg(ctx, 2), workers=4 if q else 6,
-                               timeout=600 if q else 1800, heap="4g")
+                               timeout=1800 if q else 3600, heap="4g")
         except Exception as ex:  # reported below
             mc["ex"] = ex
     th = threading.Thread(target=design)
